@@ -8,7 +8,8 @@ EXTENDS StoreOps, Json, TLCExt
 CONSTANTS Cols, Names, Datas, Filters, MaxRev, HistLen, Sim
 VARIABLES S, last, hist
 vars == <<S, last, hist>>
-Op(o, cl, c, n, d, ns, f) == [op |-> o, cl |-> cl, c |-> c, n |-> n, d |-> d, ns |-> ns, f |-> f]
+Op(o, cl, c, n, d, ns, f) == [op |-> o, cl |-> cl, c |-> c, n |-> n, d |-> d, ns |-> ns, f |-> f, flt |-> ""]
+Faults == {"h403", "h503", "w507", "plain"}
 NameSeqs == {s \in UNION {[1..k -> Names] : k \in 1..3} : \A i, j \in DOMAIN s : i # j => s[i] # s[j]}
 Ops == {Op("put", 1, c, n, d, << >>, "") : c \in Cols, n \in Names, d \in Datas}
        \cup {Op(o, 1, c, n, "", << >>, "") : o \in {"get", "del"}, c \in Cols, n \in Names}
@@ -16,6 +17,8 @@ Ops == {Op("put", 1, c, n, d, << >>, "") : c \in Cols, n \in Names, d \in Datas}
        \cup {Op("query", 1, c, "", "", << >>, f) : c \in Cols, f \in Filters}
        \cup {Op("cols", 1, "", "", "", << >>, "")}
        \cup {Op("mkcol", 1, c, "", "", << >>, "") : c \in Cols}
+       \cup {[Op("put", 1, c, n, d, << >>, "") EXCEPT !.flt = "h503"] : c \in Cols, n \in Names, d \in Datas}
+       \cup {[Op("del", 1, c, n, "", << >>, "") EXCEPT !.flt = "plain"] : c \in Cols, n \in Names}
 NoOp == Op("none", 1, "", "", "", << >>, "")
 Init == S = Empty /\ last = [op |-> NoOp, res |-> Fail(0)] /\ hist = << >>
 Do(op) == LET st == Step(S, op) IN S' = st.next /\ last' = [op |-> op, res |-> st.res]
@@ -62,8 +65,9 @@ FollowUp(w) == LET o == Pick({"get", "get", "mget", "query", "put"})
                  [] o = "mget" -> Op(o, cl, w.c, "", "", IF Pick(1..2) = 1 THEN <<w.n>> ELSE NearSeq(w.c), "")
                  [] o = "query" -> Op(o, cl, w.c, "", "", << >>, Pick(Filters))
                  [] OTHER -> Op("put", cl, w.c, w.n, Pick(Datas), << >>, "")
+MaybeFault(op) == IF Pick(1..7) = 1 THEN [op EXCEPT !.flt = Pick(Faults)] ELSE op
 SNext == /\ Sim /\ Len(hist) < HistLen
-         /\ \E op \in {IF hist # << >> /\ hist[Len(hist)].op \in {"put", "del"} /\ Pick(1..2) = 1 THEN FollowUp(hist[Len(hist)]) ELSE GenOp} :
+         /\ \E op \in {MaybeFault(x) : x \in {IF hist # << >> /\ hist[Len(hist)].op \in {"put", "del"} /\ Pick(1..2) = 1 THEN FollowUp(hist[Len(hist)]) ELSE GenOp}} :
                Do(op) /\ hist' = Append(hist, op)
 SSpec == Init /\ [][SNext]_vars
 EmitHist == (Len(hist) = HistLen) => PrintT(<<"HIST", ToJson(hist)>>)
